@@ -89,6 +89,16 @@ def dstep (_ : Unit) (line : String) : Unit × String :=
         s!"M {showParts parts} || S net={",".intercalate (nets.map showF)} nonneg=T"
       | none => "bad-op"
     | _, _, _, _ => "bad-op"
+  | ["mstdp3", la, lb, sg, sc, zs, ws] =>
+    -- scalar-reward branch with its actual arguments: flags and |signal*scale| are computed in Lean
+    match parseF? la, parseF? lb, parseF? sg, parseF? sc, parseVec? zs, parseVec? ws with
+    | some la, some lb, some sg, some sc, some zs, some ws =>
+      if zs.length ≠ ws.length then "bad-op" else
+      let parts := (zs.zip ws).map fun zw => mstdp_forward_scalar la lb sg sc zw.1 zw.2
+      let nets := (zs.zip ws).map fun zw =>
+        sgnB (decide (0 ≤ la * sg)) * (zw.1 * Float.abs (sg * sc)) + sgnB (decide (0 ≤ lb * sg)) * (zw.2 * Float.abs (sg * sc))
+      s!"M {showParts parts} || S net={",".intercalate (nets.map showF)} nonneg=T"
+    | _, _, _, _, _, _ => "bad-op"
   | ["routeT", family, a, b, red, signs, xrows, yrows] =>
     -- per-sample reward: `signs` is a string of `+` (signal >= 0) / `-` per sample
     match parseBool? a, parseBool? b, parseRed? red, parseRows? xrows, parseRows? yrows with
